@@ -144,7 +144,7 @@ func c19Rules(p *core.Prog, r *core.Run) {
 		v := p.X(st.Val)
 		empty := false
 		for _, f := range p.Facts(st.Block()) {
-			if f.Op == "==" && f.R.Name == `""` && f.L.Op == "field" && f.L.Name == "Host" && isClone(f.L.Args[0]) {
+			if f.Op == "==" && f.R.Name == "0" && f.L.Op == "call" && f.L.Name == "len" && f.L.Args[0].Op == "field" && f.L.Args[0].Name == "Host" && isClone(f.L.Args[0].Args[0]) {
 				empty = true
 			}
 		}
